@@ -5,6 +5,7 @@ package props
 import (
 	"fmt"
 	"math/rand/v2"
+	"runtime"
 
 	"github.com/creachadair/mds/slice"
 	"verif/harness/fw"
@@ -23,10 +24,10 @@ func init() {
 				Flavours: []string{"plain", "race", "cover"},
 				Blocks:   16,
 				Procs:    16,
-				Rule: "case = pair (lhs, rhs) of int sequences. Exhaustive: every pair over alphabet 3 x length <= 7 (10,758,400 pairs), alphabet 2 x length <= 9 (1,046,529 pairs) and alphabet 4 x length <= 5 (1,863,225 pairs) in quick; additionally alphabet 2 x length <= 11, alphabet 3 x length <= 8 (96.8 M pairs) and alphabet 5 x length <= 5 in thorough; every pair of windows (prefix/prefix, window/prefix, suffix/prefix) of one shared backing array of up to 9 binary elements (inputs that alias each other); pairs of 4100..11700 elements (length products past 2^24..2^27: a repeated block removed, scattered edits); random pairs of length up to 400 made of long common runs with point mutations, insertions, deletions and block moves over alphabets of 2..50 symbols. " +
+				Rule: "case = pair (lhs, rhs) of int sequences. Exhaustive: every pair over alphabet 3 x length <= 7 (10,758,400 pairs), alphabet 2 x length <= 9 (1,046,529 pairs) and alphabet 4 x length <= 5 (1,863,225 pairs) in quick; additionally alphabet 2 x length <= 11, alphabet 3 x length <= 8 (96.8 M pairs) and alphabet 5 x length <= 5 in thorough; every pair of windows (prefix/prefix, window/prefix, suffix/prefix) of one shared backing array of up to 9 binary elements (inputs that alias each other); pairs of 4100..11700 elements (length products past 2^24..2^27: a repeated block removed, scattered edits); wrap-around schedules (a larger call, exactly N one-element calls for N around 2^8, 2^9, 2^16, 2^17, then a larger call on unrelated content, all on one P); random pairs of length up to 400 made of long common runs with point mutations, insertions, deletions and block moves over alphabets of 2..50 symbols. " +
 					"Per pair: interpreter (each edit's X and Y are the spans of lhs and rhs at the current offsets, by value and by address; lhs consumed and rhs produced exactly), emitted element count == LCS length from an independent O(mn) table, canonical form (no empty edit, adjacent edits differ in kind, no Drop next to Copy, only the four opcodes, empty iff equal), inputs unmodified; a sample of returned scripts is kept and verified again after later calls; 8 goroutines call EditScript concurrently on unshared inputs (plain and under -race); interleaved with all of it, calls that fail half-way and are recovered by the caller (uncomparable interface elements compared with ==, a panicking equality function), so that every verified call also runs right after a failed one. " +
 					"distinct = the pair itself (enumerated without repetition; random pairs by hash); non-trivial = the pair has more than one optimal alignment (counted by a separate DP)",
-				Required:     []string{"pairs", "ambiguous_pairs", "replace_edits", "equal_pairs", "random_pairs", "aliased_pairs", "concurrent_calls", "kept_results_rechecked", "interface_element_cases", "abandoned_calls", "very_large_pairs"},
+				Required:     []string{"pairs", "ambiguous_pairs", "replace_edits", "equal_pairs", "random_pairs", "aliased_pairs", "concurrent_calls", "kept_results_rechecked", "interface_element_cases", "abandoned_calls", "very_large_pairs", "wraparound_schedules"},
 				Exhaustive:   true,
 				Assumptions:  []string{"the O(mn) LCS table is the reference for minimality"},
 				CoverPkgs:    []string{"github.com/creachadair/mds/slice"},
@@ -461,6 +462,68 @@ func runC11(c *fw.Ctx) {
 		if a {
 			c.Add("ambiguous_pairs", 1)
 		}
+	}
+	// wrap-around schedule: a larger call, then exactly N one-element calls, then
+	// a larger call on unrelated content, for N around 2^8 and 2^16 (one N per
+	// block): whatever is numbered per call (generation stamps, sequence
+	// numbers in recycled work areas) meets its own earlier value again
+	if c.Begin(idx + 960000 + c.Block) {
+		var gaps []int // windows of +-5 around 2^8, 2^9, 2^16, 2^17: 44 values over 16 blocks x 3 rounds
+		for _, centre := range []int{255, 510, 65535, 131071} {
+			for d := -5; d <= 5; d++ {
+				gaps = append(gaps, centre+d)
+			}
+		}
+		old := runtime.GOMAXPROCS(1) // one P: one pool-local cache
+		func() {
+			defer runtime.GOMAXPROCS(old)
+			// the call before the gap leaves long paths behind (the two sides
+			// are nearly equal); the call after it has nothing, or two elements
+			// at other positions, in common — stale state cannot pass for valid
+			rich := func(base, n int) ([]int, []int) {
+				l := make([]int, n)
+				for i := range l {
+					l[i] = base + i
+				}
+				r := append(append(append([]int(nil), l[:n/2]...), base-7), l[n/2:]...)
+				return l, r
+			}
+			poor := func(base, n, common int) ([]int, []int) {
+				l, r := make([]int, n), make([]int, n+1)
+				for i := range l {
+					l[i] = base + i
+				}
+				for i := range r {
+					r[i] = base + 100 + i
+				}
+				if common > 0 {
+					r[1], r[n-2] = l[1], l[n-2]
+				}
+				return l, r
+			}
+			for round := 0; round < 3; round++ {
+				gap := gaps[(3*c.Block+round)%len(gaps)]
+				l, r := rich(1000*round+10, 8+round)
+				c11check(c, l, r)
+				one, two := []int{1}, []int{2}
+				for i := 0; i < gap; i++ {
+					if (c.Block+round)%2 == 0 { // one kind of small call per round
+						slice.EditScript(one, two)
+					} else {
+						slice.LCS(one, one)
+					}
+					if i%4096 == 0 {
+						c.Step()
+					}
+				}
+				l2, r2 := poor(1000*round+500, 8+round, round%2)
+				c11check(c, l2, r2)
+				l3, r3 := poor(1000*round+700, 8+round, 1-round%2)
+				c11check(c, l3, r3)
+			}
+		}()
+		c.Add("wraparound_schedules", 1)
+		c.Add("pairs", 6)
 	}
 	// random long pairs
 	nr := c.Pick(150, 3000)
